@@ -174,14 +174,20 @@ def run_codec(spec):
     (rl, tl), (rf, tf) = make_record_pair(psk)
     viol = []
     frag = spec["frag"]
-    toks_f = feed(rf, bytes(tl.buf), frag, rng)      # follower reads the leader's prologue
-    tl.buf.clear()
-    toks_l = feed(rl, bytes(tf.buf), frag, rng)      # leader reads prologue -> sends handshake
-    tf.buf.clear()
-    toks_f += feed(rf, bytes(tl.buf), frag, rng)     # follower reads handshake -> sends its own
-    tl.buf.clear()
-    toks_l += feed(rl, bytes(tf.buf), frag, rng)
-    tf.buf.clear()
+    try:
+        toks_f = feed(rf, bytes(tl.buf), frag, rng)      # follower reads the leader's prologue
+        tl.buf.clear()
+        toks_l = feed(rl, bytes(tf.buf), frag, rng)      # leader reads prologue -> sends handshake
+        tf.buf.clear()
+        toks_f += feed(rf, bytes(tl.buf), frag, rng)     # follower reads handshake -> sends its own
+        tl.buf.clear()
+        toks_l += feed(rl, bytes(tf.buf), frag, rng)
+        tf.buf.clear()
+    except Exception as e:
+        # an honest, correctly keyed peer whose prologue/handshake merely arrives in pieces
+        return {"violations": [{"key": "C12/codec/honest-prologue-or-handshake-rejected/" + type(e).__name__,
+                                "msg": "frag=%s: %r while reading the peer's prologue/handshake" % (frag, e), "witness": {"spec": spec}}],
+                "nontrivial": None, "counters": {}}
     if [type(t) for t in toks_f] != [Handshake] or [type(t) for t in toks_l] != [Handshake]:
         return {"violations": [{"key": "C12/codec/handshake-failed", "msg": "%r %r" % (toks_f, toks_l), "witness": {"spec": spec}}],
                 "nontrivial": None, "counters": {}}
